@@ -131,6 +131,11 @@ int main(int argc, char** argv) {
                         ev_medfilt(js, x, ord);
                     }
                 }
+                if (n <= 4 || c % 7 == 0) {   // windows longer than the signal (mostly padding), odd and even orders
+                    for (int ord = std::max(3, n + 2); ord <= 2 * n + 3; ++ord) {
+                        ev_medfilt(js, x, ord);
+                    }
+                }
             }
         }
         // every pair of permutations of length 2..nmax for the rank correlations (tie-free data)
